@@ -59,7 +59,7 @@ def gterm(rng, d):
 def big_term(rng):
     """large terms: long lists, wide compounds, deep nesting (sizes around 16/32/64 where fast paths switch)"""
     k = rng.choice(['list', 'wide', 'deep'])
-    n = rng.choice([15, 16, 17, 31, 32, 33, 40, 64, 65, 100, 128, 129, 200, 256, 257, 300])
+    n = rng.choice([15, 16, 17, 31, 32, 33, 40, 64, 65]) if rng.random() < 0.88 else rng.choice([100, 128, 129, 200, 256, 257, 300])
     leaf = lambda: rng.choice([A('a'), A('b'), I(1), rng.choice(POOL)])
     if k == 'list':
         return L([leaf() for _ in range(n)], rng.choice([NIL, NIL, rng.choice(POOL)]))
@@ -297,10 +297,13 @@ def run_online(ctx, rng):
 
     def mon(a, b):
         for x in orig(a, b):
-            stats['yields'] += 1
-            sa, sb = snap_real(E, [a]), snap_real(E, [b])
-            if sa != sb and ('cyclic',) not in (sa, sb) and stats['bad'] is None:
-                stats['bad'] = (sa, sb)
+            if stats['yields'] < 1500:
+                # (the first 1500 internal unifications of a run are looked at: with the long lists of some templates
+                # a snapshot of both sides at every one of tens of thousands of yields would take minutes)
+                stats['yields'] += 1
+                sa, sb = snap_real(E, [a]), snap_real(E, [b])
+                if sa != sb and ('cyclic',) not in (sa, sb) and stats['bad'] is None:
+                    stats['bad'] = (sa, sb)
             yield x
     if rng.random() < 0.6:
         clauses, preds = gen.gen_prog_stratified(rng)
